@@ -2,6 +2,7 @@ package layerb
 
 import (
 	"bytes"
+	"encoding/json"
 	"fmt"
 	"os"
 	"os/exec"
@@ -121,6 +122,14 @@ func NewCorpus(root, goverterBin string, convs []*Conv, perGroup int) (*Corpus, 
 			cv.Name = fmt.Sprintf("C%d", n)
 			cv.Method = fmt.Sprintf("Conv%d", n)
 			n++
+			if cv.Spec != nil {
+				if b, err := json.Marshal(cv.Spec); err == nil {
+					ns := &Spec{}
+					if json.Unmarshal([]byte(cv.subst(string(b))), ns) == nil {
+						cv.Spec = ns
+					}
+				}
+			}
 			if cv.Solo || cv.ExpectFail || len(cv.CLI) > 0 {
 				flush()
 				cur = []*Conv{cv}
